@@ -102,7 +102,7 @@ Definition cb_post (e : env) (t : N) (w' : world) (c : cbcode) : Prop :=
   | CYield =>
       tasks_empty e tk = false /\ tk_sleep tk = 1 /\
       (tk_waitables tk = [] \/
-       exists s l, tk_set tk = Some s /\ hlog (w_host w') = HPoll s 0 0 0 :: l)
+       exists s a b l, tk_set tk = Some s /\ hlog (w_host w') = HPoll s 0 a b :: l)
   end.
 
 Lemma is_nil_true : forall A (l : list A), is_nil l = true -> l = [].
@@ -146,10 +146,10 @@ Proof.
         destruct (N.eqb e0 0) eqn:E0.
         -- apply N.eqb_eq in E0. subst e0. inversion H; subst.
            pose proof (get_task_hostr_eq _ t _ _ _ _ HP) as G.
-           cbn. rewrite G. repeat split; auto. right.
+           unfold cb_post. rewrite G. split; [auto|]. split; [auto|]. right.
            unfold hostr in HP. destruct (h_wait_poll false s (w_host w1)) as [h' r] eqn:HW.
            inversion HP; subst. destruct (h_wait_poll_log _ _ _ _ _ _ _ HW) as [l Hl].
-           exists s, l. split; auto.
+           exists s, wt, cc, l. split; [exact S|exact Hl].
         -- eapply IH; eauto.
       * set (w2 := read_itw e t (upd_task t (tk_with_sleep 2) w1)) in *.
         destruct (failed w2) eqn:F2; [inversion H; subst; congruence|].
@@ -226,7 +226,7 @@ Corollary yield_only_when_woken : forall e t e0 e1 e2 w w',
   task_cb e t e0 e1 e2 w = (w', CYield) -> failed w' = false ->
   tasks_empty e (get_task t w') = false /\ tk_sleep (get_task t w') = 1 /\
   (tk_waitables (get_task t w') = [] \/
-   exists s l, tk_set (get_task t w') = Some s /\ hlog (w_host w') = HPoll s 0 0 0 :: l).
+   exists s a b l, tk_set (get_task t w') = Some s /\ hlog (w_host w') = HPoll s 0 a b :: l).
 Proof.
   intros e t e0 e1 e2 w w' H NF.
   destruct (task_cb_spec _ _ _ _ _ _ _ _ H NF) as [(A & B & C)|(A & P)]; [discriminate|].
